@@ -89,9 +89,9 @@ def run_three(art, lines, par=1):
                 return None
             out[i::par] = o
         return out
-    impl = go([art["hx"], "C19"] if art.get("hx") else None)
-    model = go([art["driver"], "C19", "model"] if art.get("driver") else None)
-    spec = go([art["driver"], "C19", "spec"] if art.get("driver") else None)
+    impl = go([art["hx"]] if art.get("hx") else None)
+    model = go([art["driver"], "model"] if art.get("driver") else None)
+    spec = go([art["driver"], "spec"] if art.get("driver") else None)
     return impl, model, spec
 
 
@@ -175,14 +175,14 @@ def explore(ctx, art):
 
 
 def run(ctx):
-    art = common.standard_prepare(ctx, MODULES)
+    art = common.standard_prepare(ctx, MODULES, generated=["Blockwise.lean"])
     if art.get("hx"):
         explore(ctx, art)
     return common.finish(ctx)
 
 
 def replay(ctx, rep):
-    art = common.standard_prepare(ctx, MODULES)
+    art = common.standard_prepare(ctx, MODULES, generated=["Blockwise.lean"])
     lines = rep.get("input") or []
     if not lines:
         print("replay file names no failing input:", rep.get("no_longer_checks"))
